@@ -272,7 +272,20 @@ func (d *cliDriver) oneCase(seed int64, id int) {
 		sel = k + 1
 	}
 	var f, u int64
-	switch rnd.Intn(6) {
+	switch rnd.Intn(7) {
+	case 6:
+		// a window in the past: wholly older than a finer archive's retention, inside the next coarser one's
+		f = now - rnd.Int63n(maxRet+3)
+		u = f + rnd.Int63n(maxRet+3)
+		if k > 1 {
+			i := rnd.Intn(k - 1)
+			ri, rj := lay[i].Step*lay[i].N, lay[i+1].Step*lay[i+1].N
+			u = now - ri - 1 - rnd.Int63n(lay[i+1].Step+1)
+			f = u - rnd.Int63n(rj-ri+1)
+			if rnd.Intn(2) == 0 {
+				sel = 0
+			}
+		}
 	case 0:
 		f, u = 0, 0
 	case 1:
